@@ -199,6 +199,19 @@ def path_segments(escaped_path):
     return [unquote(s) for s in escaped_path.split("/")[1:]]
 
 
+def remove_dot_segments(segs):
+    out = []
+    for s_ in segs:
+        if s_ == ".":
+            continue
+        if s_ == "..":
+            if out:
+                out.pop()
+            continue
+        out.append(s_)
+    return out
+
+
 def is_ip_host(h):
     import ipaddress
     try:
@@ -240,6 +253,8 @@ def judge(case, pred, r):
             if q["n"] == 0 and allowed is not None:
                 want = x["segs"] + ["did.json"] if x["segs"] else [".well-known", "did.json"]
                 got = path_segments(q["path"])
+                if got != want and pc == "dot" and got == remove_dot_segments(want):
+                    got = want     # RFC 3986 5.2.4 normalisation of "." / ".." segments addresses the same resource
                 if got != want or q["query"]:
                     viol.append((dict(kind="fetch-other-path", **{"class": pc}),
                                  "%s: identifier encodes path segments %s, request went to %s%s" % (case["did"], want, q["path"], "?" + q["query"] if q["query"] else "")))
@@ -254,7 +269,8 @@ def judge(case, pred, r):
         if hc in NOTE_HOSTS and dials:
             notes.append((hc, "%s: %s; dials %s" % (case["did"], NOTE_HOSTS[hc], dials[:2])))
         # prediction of the descriptive model (not the property): drift
-        if pred:
+        # the statement is silent on same-origin redirects and on 2xx codes other than 200: either behaviour is fine, no drift
+        if pred and ans not in ("redir-samehost", "ok-2xx"):
             if (pred["outcome"] == "doc") != bool(r["resolved"]):
                 # hosts the real TLS stack refuses later than the model says (no SNI for an empty host) are not interesting
                 if not (hc == "emptyhost"):
